@@ -78,25 +78,35 @@ structure Reader where
   queue : List Cmd := []
 deriving Repr, DecidableEq
 
-/-- one `_async_reader_callback` with `os.read` returning `chunk`. -/
-def feed (max : Nat) (st : Reader) (chunk : List Nat) : Reader :=
+/-- one `_async_reader_callback` with `os.read` returning `chunk`.
+    `strict = false` is the code as it is: only a newline-free buffer longer than `max` is fatal, so
+    whether a line longer than `max` is executed depends on where the reads cut it.
+    `strict = true` is the repaired reader (proposed_fixes): every line, complete or not, longer
+    than `max` is fatal; the lines before it are queued. -/
+def feed (strict : Bool) (max : Nat) (st : Reader) (chunk : List Nat) : Reader :=
   if st.dead then st
   else if chunk.any (fun b => decide (128 ≤ b)) then { st with dead := true, buf := [] }   -- UnicodeDecodeError
   else
     let raw := st.buf ++ chunk
     let r := split raw
     if r.1.isEmpty && decide (max < raw.length) then { st with dead := true, buf := [] }     -- oversized
-    else { st with buf := r.2, queue := st.queue ++ lineCmds r.1 }
+    else
+      let good := r.1.takeWhile (fun l => decide (l.length ≤ max))
+      if strict && (decide (good.length < r.1.length) || decide (max < r.2.length)) then
+        { st with dead := true, buf := [], queue := st.queue ++ lineCmds good }
+      else { st with buf := r.2, queue := st.queue ++ lineCmds r.1 }
 
-def feedAll (max : Nat) (st : Reader) (chunks : List (List Nat)) : Reader := chunks.foldl (feed max) st
+def feedAll (strict : Bool) (max : Nat) (st : Reader) (chunks : List (List Nat)) : Reader :=
+  chunks.foldl (feed strict max) st
 
 /-! ## words -/
 
+/-- `cur` is the word being read, reversed -/
 def wordsAux (cur : List Nat) : List Nat → List Tok
-  | [] => if cur.isEmpty then [] else [cur]
+  | [] => if cur.isEmpty then [] else [cur.reverse]
   | b :: t =>
-    if isWs b then (if cur.isEmpty then wordsAux [] t else cur :: wordsAux [] t)
-    else wordsAux (cur ++ [b]) t
+    if isWs b then (if cur.isEmpty then wordsAux [] t else cur.reverse :: wordsAux [] t)
+    else wordsAux (b :: cur) t
 
 /-- `str.split()` -/
 def words (l : List Nat) : List Tok := wordsAux [] l
@@ -163,16 +173,23 @@ def matchNeighbor (q : Quirks) : Desc → List Tok → Bool
     if isWild t then (if q.wildcardShort then true else matchNeighbor q ts name)
     else if infixOf t name then matchNeighbor q ts name else false
 
+def attachedAt (nbrs : List Nbr) (i : Nat) : Bool :=
+  match nbrs[i]? with
+  | some n => n.attached
+  | none => false
+
 /-- indices of `reactor.peers(service)` -/
-def servicePeers (nbrs : List Nbr) : List Nat :=
-  (List.range nbrs.length).filter (fun i => match nbrs[i]? with | some n => n.attached | none => false)
+def servicePeers (nbrs : List Nbr) : List Nat := (List.range nbrs.length).filter (attachedAt nbrs)
+
+/-- some description matches the name of neighbor `i` -/
+def matchAt (q : Quirks) (nbrs : List Nbr) (descs : List Desc) (i : Nat) : Bool :=
+  match nbrs[i]? with
+  | some n => descs.any (fun d => matchNeighbor q d n.name)
+  | none => false
 
 /-- `match_neighbors(reactor.peers(service), descriptions)` -/
 def matchNeighbors (q : Quirks) (nbrs : List Nbr) (descs : List Desc) : List Nat :=
-  if descs.isEmpty then servicePeers nbrs
-  else (servicePeers nbrs).filter (fun i => match nbrs[i]? with
-    | some n => descs.any (fun d => matchNeighbor q d n.name)
-    | none => false)
+  if descs.isEmpty then servicePeers nbrs else (servicePeers nbrs).filter (matchAt q nbrs descs)
 
 /-- what a command says about its targets -/
 inductive Sel where
@@ -356,6 +373,18 @@ def walk (fuel : Nat) (ps : Paths) (toks : List Tok) (sel : Option Sel) : WalkRe
           | some h => .ok h sel rest
           | none => walk fuel ps' rest sel
 
+/-- the tail of `dispatch_v6`: "some handlers require all peers if none specified".
+    `peers` is `[]` without a selector; the code does not distinguish "no selector" from
+    "selector that matched nobody" (F21) — `q.v6Fallback = false` is the repaired rule. -/
+def finishV6 (q : Quirks) (nbrs : List Nbr) (h : Handler) (sel : Option Sel) (rest : List Tok) : DispRes :=
+  let allPeers : DispRes :=
+    if (servicePeers nbrs).isEmpty then .error else .ok h sel (servicePeers nbrs) rest 0
+  match sel with
+  | none => if needsPeers.contains h then allPeers else .ok h none [] rest 0
+  | some s =>
+    if needsPeers.contains h && (s.resolve q nbrs).isEmpty then (if q.v6Fallback then allPeers else .error)
+    else .ok h sel (s.resolve q nbrs) rest 0
+
 /-- `dispatch_v6(command, …)` on the words of the command. `action` 1 = announce, 2 = withdraw is
     filled in later by `v6_announce`/`v6_withdraw`; here it is 0. -/
 def dispatchV6 (q : Quirks) (nbrs : List Nbr) (cmd : Cmd) : DispRes :=
@@ -363,16 +392,7 @@ def dispatchV6 (q : Quirks) (nbrs : List Nbr) (cmd : Cmd) : DispRes :=
   if toks.isEmpty || (strip cmd).head? == some 35 then .ok Handler.reactor_comment none [] toks 0
   else match walk (toks.length + 1) v6Paths toks none with
     | .unknown => .error
-    | .ok h sel rest =>
-      let peers := match sel with
-        | none => []
-        | some s => s.resolve q nbrs
-      if needsPeers.contains h && peers.isEmpty then
-        if sel.isSome && !q.v6Fallback then .error
-        else
-          let all := servicePeers nbrs
-          if all.isEmpty then .error else .ok h sel all rest 0
-      else .ok h sel peers rest 0
+    | .ok h sel rest => finishV6 q nbrs h sel rest
 
 def lookupTok {β : Type} (k : Tok) : List (Tok × β) → Option β
   | [] => none
@@ -664,49 +684,69 @@ def groupAll (env : Env) (peers : List Nat) : List Cmd → List Rib → List Rib
     let r' := groupAll env peers cs r.1
     (r'.1, r.2 && r'.2)
 
-/-- `API.process(reactor, service, command)` followed by `ASYNC._run_async()` -/
-def step (env : Env) (st : St) (cmd : Cmd) : St × Out :=
-  let low := lower (strip cmd)
-  let groupEnd : List Nat := Kw.k_group ++ 32 :: Kw.k_endw
-  let groupStart : List Nat := Kw.k_group ++ 32 :: Kw.k_start
-  let buffered : Bool :=
-    st.group.isSome && !(groupEnd.isPrefixOf low) && !(groupStart.isPrefixOf low)
-      && (Kw.k_announce.isPrefixOf low || Kw.k_withdraw.isPrefixOf low)
-  if buffered then
-    ({ st with group := st.group.map (· ++ [cmd]) }, { replies := st.reply .done })
-  else
-    match (if st.version == 4 then dispatchV4 env.q env.nbrs cmd else dispatchV6 env.q env.nbrs cmd) with
-    | .error => (st, { replies := st.reply .error })
-    | .ok h _ peers rest action =>
-      match h with
-      | .announce_v6_announce => v6Typed env st true peers rest
-      | .announce_v6_withdraw => v6Typed env st false peers rest
-      | .group_group_start =>
-        if st.group.isSome then (st, { replies := st.reply .error })
-        else ({ st with group := some [] }, { replies := st.reply .done })
-      | .group_group_end =>
-        match st.group with
-        | none => (st, { replies := st.reply .error })
-        | some cmds =>
-          let r := groupAll env (servicePeers env.nbrs) cmds st.ribs
-          ({ st with group := none, ribs := r.1 }, { replies := st.reply .done, modelled := r.2 })
-      | .group_group_inline =>
-        let parts := ((splitOnByte 59 (unwords rest)).map strip).filter (fun p => !p.isEmpty)
-        if parts.isEmpty then (st, { replies := st.reply .error })
-        else
-          let r := groupAll env peers parts st.ribs
-          ({ st with ribs := r.1 }, { replies := st.reply .done, modelled := r.2 })
-      | _ => runHandler env st h peers rest action
+/-- where `API.process` sends a command -/
+inductive Routed where
+  | buffer            -- group mode and the line starts with announce/withdraw: `group_add_command`
+  | error             -- UnknownCommand / NoMatchingPeers
+  | call (h : Handler) (sel : Option Sel) (peers : List Nat) (rest : List Tok) (action : Nat)
+deriving Repr, DecidableEq
 
-/-- execute a command list; the trace keeps, per command, the ack state before it and its replies -/
-def run (env : Env) : St → List Cmd → St × List (Bool × Out)
+def groupEndKw : List Nat := Kw.k_group ++ 32 :: Kw.k_endw
+def groupStartKw : List Nat := Kw.k_group ++ 32 :: Kw.k_start
+
+/-- the head of `API.process`: group buffering, then `dispatch_v4` / `dispatch_v6` -/
+def routeCmd (env : Env) (st : St) (cmd : Cmd) : Routed :=
+  let low := lower (strip cmd)
+  if st.group.isSome && !(groupEndKw.isPrefixOf low) && !(groupStartKw.isPrefixOf low)
+      && (Kw.k_announce.isPrefixOf low || Kw.k_withdraw.isPrefixOf low) then .buffer
+  else match (if st.version == 4 then dispatchV4 env.q env.nbrs cmd else dispatchV6 env.q env.nbrs cmd) with
+    | .error => .error
+    | .ok h sel peers rest action => .call h sel peers rest action
+
+/-- the handler call and the scheduled callback run to completion (`ASYNC._run_async`) -/
+def exec (env : Env) (st : St) (cmd : Cmd) : Routed → St × Out
+  | .buffer => ({ st with group := st.group.map (· ++ [cmd]) }, { replies := st.reply .done })
+  | .error => (st, { replies := st.reply .error })
+  | .call h _ peers rest action =>
+    match h with
+    | .announce_v6_announce => v6Typed env st true peers rest
+    | .announce_v6_withdraw => v6Typed env st false peers rest
+    | .group_group_start =>
+      if st.group.isSome then (st, { replies := st.reply .error })
+      else ({ st with group := some [] }, { replies := st.reply .done })
+    | .group_group_end =>
+      match st.group with
+      | none => (st, { replies := st.reply .error })
+      | some cmds =>
+        let r := groupAll env (servicePeers env.nbrs) cmds st.ribs
+        ({ st with group := none, ribs := r.1 }, { replies := st.reply .done, modelled := r.2 })
+    | .group_group_inline =>
+      let parts := ((splitOnByte 59 (unwords rest)).map strip).filter (fun p => !p.isEmpty)
+      if parts.isEmpty then (st, { replies := st.reply .error })
+      else
+        let r := groupAll env peers parts st.ribs
+        ({ st with ribs := r.1 }, { replies := st.reply .done, modelled := r.2 })
+    | _ => runHandler env st h peers rest action
+
+/-- `API.process(reactor, service, command)` followed by `ASYNC._run_async()` -/
+def step (env : Env) (st : St) (cmd : Cmd) : St × Out := exec env st cmd (routeCmd env st cmd)
+
+/-- one entry of the trace: the ack state before the command, where it was routed, what came out -/
+structure Entry where
+  ackBefore : Bool
+  routed : Routed
+  out : Out
+deriving Repr, DecidableEq
+
+/-- execute a command list, in order -/
+def run (env : Env) : St → List Cmd → St × List Entry
   | st, [] => (st, [])
   | st, c :: cs =>
     let r := step env st c
     let r' := run env r.1 cs
-    (r'.1, (st.ack, r.2) :: r'.2)
+    (r'.1, { ackBefore := st.ack, routed := routeCmd env st c, out := r.2 } :: r'.2)
 
 /-- the acknowledgement stream the helper process reads -/
-def replies (tr : List (Bool × Out)) : List Reply := tr.flatMap (fun p => p.2.replies)
+def replies (tr : List Entry) : List Reply := tr.flatMap (fun e => e.out.replies)
 
 end Exa.Api
